@@ -198,3 +198,7 @@ class C10(core.Prop):
 
 
 PROP = C10()
+
+# shape families added after the first complete pass (DESIGN 8.6-8.11); appended to the bounds written into the evidence
+BOUNDS_ADDED = '; plus: bead-level and layered (two-level) shared nodes against the disjoint description, pipeline.VARIANTS (string-order constructors), legacy=False with one shared pair and one ordinary cut'
+PROP.BOUNDS = {k: v + BOUNDS_ADDED for k, v in PROP.BOUNDS.items()}
